@@ -63,6 +63,13 @@ class ExprMixin:
             cid, tn = env.cellnames[name]
             if cid in env.state.cells:
                 return env.state.cells[cid], tn
+            if cid in self.boxrefs:
+                # a variable whose address escapes lives in the heap: its current value is read from there
+                r, et, k = self.boxrefs[cid]
+                if k == 'struct':
+                    return r, '*' + et
+                if k != 'array':
+                    return self.load(env.state, PtrV('box', r, et)), et
         if name in env.names:
             return env.names[name]
         if name in env.cellnames:
